@@ -1,4 +1,4 @@
-import Proofs.RoundTrip
+import Proofs.RoundTripMsg
 /-!
 # C02 — parsing inverts serialization; re-serialization is byte-exact
 
@@ -8,11 +8,11 @@ its serialization into a blank twin succeeds and yields exactly its populated fi
 bytes, whatever the values spell (`58=35=Z` does not disturb tag 35: that is the scan lemma at work) — and
 serializing the result again gives the same bytes.
 
-**Partial**: the same statement for templates with repeating groups (`C02_full`) is *not* proved: the group
-branch cuts the entry slices with `splitGroup` by the first entry tag, and the induction over nested groups with
-re-occurring tags did not close in the time available. It is validated by the correspondence check (random
-templates to depth 5, all tests/fix44 messages) and the population shadow; the building blocks it needs are
-proved: the wire image of groups (`C17_wire`), boundary-exact lookups (`C18_scan`), no panic (`C11_unmarshal`).
+**Proved (`C02_roundtrip`, `C02_reserialize`)**: the same for templates with repeating groups nested to any depth.
+The proof goes through a decoder defined on *lists of fields* (`unmF`): `C02_decoder_is_field_decoder` shows that
+the byte-scanning decoder — `scanKeyValue`, the count field, the first entry tag, `splitGroup` — computes exactly
+that decoder on every input made of SOH-free `tag=value` fields (hostile or not), and `rt_list` shows that the field
+decoder returns the population from its own leaves when tags are pairwise distinct.
 
 Known finding F-C02-trailer: populated trailer fields are not serialized, hence cannot come back; the theorem
 says what comes back for the trailer (blank).
@@ -51,12 +51,27 @@ theorem C02_accepts_own_output (m t : Msg) (h : FlatOK m)
     (ht : t.bsTag = m.bsTag ∧ t.blTag = m.blTag ∧ t.csTag = m.csTag) : validateRaw t m.encode = .ok () :=
   validateRaw_encode m t h ht
 
-/-- the full statement, groups included — not proved (see above) -/
-def C02_full : Prop :=
-  ∀ (m t : Msg), c17Pre m = true → (∀ k ∈ m.tags, SOH ∉ k ∧ EQ ∉ k) → m.tags.Nodup →
-    t.bsTag = m.bsTag → t.blTag = m.blTag → t.csTag = m.csTag → t.mtTag = m.mtTag →
-    t.header = blankList m.header → t.body = blankList m.body → t.trailer = blankList m.trailer →
-    ∃ m', t.unmarshal m.encode = .ok m' ∧ m'.encode = m.encode
+/-- **parse ∘ serialize, repeating groups nested to any depth** (hypotheses `MsgOK`: pairwise distinct tags free of
+    SOH and '=', SOH-free canonical values, every entry a populated copy of its group's template with its first
+    field populated — the property's preconditions) -/
+theorem C02_roundtrip (m t : Msg) (h : MsgOK m) (tw : Twin m t) : t.unmarshal m.encode = .ok m.parsedG :=
+  h.unmarshal_encode m t tw
+
+/-- what came back is what was populated, entry by entry -/
+theorem C02_same_fields (m : Msg) :
+    leavesList m.parsedG.header = leavesList m.header ∧ leavesList m.parsedG.body = leavesList m.body :=
+  ⟨leavesList_normG _, leavesList_normG _⟩
+
+/-- **serialize ∘ parse ∘ serialize = serialize**, byte-exact, groups included -/
+theorem C02_reserialize (m t : Msg) (h : MsgOK m) (tw : Twin m t) :
+    ∃ m', t.unmarshal m.encode = .ok m' ∧ m'.encode = m.encode :=
+  ⟨m.parsedG, h.unmarshal_encode m t tw, h.parsed_encode m⟩
+
+/-- the decoder on bytes is the decoder on fields — for every template (nested groups included) and every
+    sequence of SOH-free `tag=value` fields, whatever they contain (the general form of the scan lemma) -/
+theorem C02_decoder_is_field_decoder (is : List Item) (fresh : Bool) (h : Bytes) (L : List Bytes) (e : Bytes)
+    (he : e = [] ∨ e = [SOH]) (ht : listTplOK is = true) (hS : ∀ g ∈ h :: L, SOH ∉ g) (hE : ∀ g ∈ L, EQ ∈ g) :
+    unmList is fresh (img h L e) = unmListF is fresh (h :: L) := unmList_img is fresh h L e he ht hS hE
 
 /-- non-vacuity: a message with a header field, a nested component, an unpopulated field and a value that spells
     another field's tag (`58` holds `35=Z`) satisfies the hypotheses -/
@@ -77,3 +92,35 @@ example : ∀ p ∈ kvsList exMsg.header ++ kvsList exMsg.body, p.2.Canon := by
   · exact canon_newString _
   · exact canon_newInt 7 (by decide) (by decide)
   · intro h; simp [populated, Val.blank] at h
+
+/-- non-vacuity for groups: `146` with two entries, the first holding a nested group `711` with two entries, the
+    second leaving `48` unpopulated and the nested group empty -/
+def exGroupMsg : Msg :=
+  Msg.new [56] [57] [49, 48] [51, 53] [70, 73, 88] [87]
+    [.kv [52, 57] (Val.newString [65])]
+    [.kv [53, 56] (Val.newString [51, 53, 61, 90]),
+     .group [49, 52, 54] [.kv [53, 53] (Val.blank .str), .kv [52, 56] (Val.blank .str),
+                          .group [55, 49, 49] [.kv [51, 49, 49] (Val.blank .str)] []]
+       [[.kv [53, 53] (Val.newString [65]), .kv [52, 56] (Val.newString [66]),
+         .group [55, 49, 49] [.kv [51, 49, 49] (Val.blank .str)]
+           [[.kv [51, 49, 49] (Val.newString [88])], [.kv [51, 49, 49] (Val.newString [89])]]],
+        [.kv [53, 53] (Val.newString [67]), .kv [52, 56] (Val.blank .str),
+         .group [55, 49, 49] [.kv [51, 49, 49] (Val.blank .str)] []]]]
+    []
+
+example : MsgOK exGroupMsg := by
+  have cs : ∀ s, (Val.newString s).Canon := canon_newString
+  have cb : ∀ k, (Val.blank k).Canon := by intro k hp; simp [populated, Val.blank] at hp
+  constructor
+  · decide
+  · simp [exGroupMsg, Msg.new, wfList, Item.wf, Val.newString, SOH, EQ]
+    exact cs _
+  · simp [exGroupMsg, Msg.new, wfList, Item.wf, wfEntries, firstKey, firstPopulated, blankList, Item.blank, populated,
+      Val.newString, Val.blank, int64Max, SOH, EQ]
+    repeat' constructor
+    all_goals first | exact cs _ | (intro hp; simp [populated] at hp)
+  · simp [exGroupMsg, Msg.new, blankList, wfList]
+  · decide
+  · decide
+  · decide
+  · decide
